@@ -24,15 +24,59 @@ FIXTURE_EXPECT = ["c09.formula"]
 
 
 def scope_table(ctx, rule, key, sc, fields, enums, expect, loc):
-    names, tab = TB.predicate_table(sc, fields, enums)
+    """truth table of a selection predicate (one filter closure or the conjunction of several over the same source) against the statement.
+    Comparisons on quantities that are not atoms of the statement are enumerated as free atoms: a selection that depends on one is a finding."""
+    import itertools
+    scs = sc if isinstance(sc, (list, tuple)) else [sc]
+    names = list(fields)
+    doms = [enums[f] if f in enums else [True, False] for f in names]
     bad = []
-    for combo, val in sorted(tab.items(), key=str):
-        if not isinstance(val, bool):
-            raise AnalysisError("%s: predicate cannot be evaluated for %s (%s)" % (key, combo, val))
+    depends = {}
+    tab = {}
+    for combo in itertools.product(*doms):
+        free = set()
+        results = set()
+        # discover free atoms, then enumerate them
+        for _round in range(3):
+            results = set()
+            stuck = None
+            for fv in itertools.product((True, False), repeat=len(free)):
+                at = TB.Atoms(dict(zip(names, combo)), enums)
+                at.free_values = dict(zip(sorted(free), fv))
+                val = True
+                for s1 in scs:
+                    v = TB.eval_predicate(s1, at)
+                    if not isinstance(v, bool):
+                        stuck = v
+                        break
+                    val = val and v
+                new = at.free_seen - free
+                if stuck is not None:
+                    if new:
+                        break
+                    raise AnalysisError("%s: predicate cannot be evaluated for %s (%s)" % (key, combo, stuck))
+                results.add((fv, val))
+            if stuck is not None and new:
+                free |= new
+                if len(free) > 4:
+                    raise AnalysisError("%s: too many free conditions %s" % (key, sorted(free)))
+                continue
+            break
+        vals = {v for _, v in results}
         want = expect(dict(zip(names, combo)))
-        if val != want:
+        if len(vals) > 1:
+            for fr in sorted(free):
+                depends.setdefault(fr, []).append(dict(zip(names, combo)))
+            val = None
+        else:
+            val = vals.pop()
+        tab[combo] = val
+        if val is not None and val != want:
             bad.append("%s -> %s (expected %s)" % (dict(zip(names, combo)), val, want))
-    if bad:
+    if depends:
+        ctx.violation(rule, key, "the selection also depends on %s, which is not part of the statement's scope: elements are included or left out by it (e.g. for %s)"
+                      % (" and ".join("`%s`" % d for d in sorted(depends)), list(depends.values())[0][0]), loc)
+    elif bad:
         ctx.violation(rule, key, "scope predicate differs from the statement on %d of %d cases: %s" % (len(bad), len(tab), "; ".join(bad[:3])), loc)
     else:
         ctx.ok(rule, key, "truth table over %s agrees on all %d cases" % (names, len(tab)), loc)
@@ -58,8 +102,8 @@ def run(ctx):
     root = Scope(prog, f)
     bt = [v["name"] for v in prog.adt("bemodel::types::common::BoundaryType")["variants"]]
     filt = [ch for (b, t, ch) in root.children() if ch.via[0] == "filter" and (ch.via[1].source_name() or "").endswith("props.walls")]
-    ctx.require(len(filt) == 1, "N50Data::from: wall filter not found")
-    scope_table(ctx, "c09.scope", "c09.scope|walls", filt[0], ["is_tenv", "bounds"], {"bounds": bt},
+    ctx.require(len(filt) >= 1, "N50Data::from: wall filter not found")
+    scope_table(ctx, "c09.scope", "c09.scope|walls", filt, ["is_tenv", "bounds"], {"bounds": bt},
                 lambda a: a["is_tenv"] and a["bounds"] == "EXTERIOR", f.loc())
     # windows of the wall: win.wall == wall_id
     wfil = [ch for sc in root.all_scopes() for (b, t, ch) in sc.children() if ch.via[0] == "filter" and (ch.via[1].source_name() or "").endswith("props.windows")]
@@ -161,6 +205,9 @@ def run(ctx):
     # D3 C_o table in EnergyProps::from
     ep = prog.method("energy::props::EnergyProps", "convert::From", "from")
     esc = Scope(prog, ep)
+    # the `is_tenv` this indicator filters on is the envelope membership of the statement (the truth table C11 decides, evaluated here too)
+    from .c11 import check_envelope_membership
+    check_envelope_membership(ctx, prog, ep, esc, rule="c09.scope")
     from .c06 import local_defs
     co = local_defs(esc, "c_o_100")
     ctx.require(len(co) == 1, "EnergyProps::from: c_o_100 not found")
